@@ -1,4 +1,5 @@
 import MimeModel.Model.Detect
+import MimeModel.Lemmas.DetectTie
 import MimeModel.Gen.Tree
 import MimeModel.Lemmas.JsonQuery
 import MimeModel.Props.C08
@@ -514,5 +515,8 @@ theorem subtypes_whole (D : Bytes) (v : J.JVal) (lim : Nat)
     cases h : J.isGltf v
     · simp
     · simp [hobjGltf h]
+
+/-- regenerated tie: `Detect` / `DetectReader` load the limit once, atomically (see Lemmas/DetectTie.lean) -/
+theorem tie_single_limit : Mime.DetectTie.SingleLimit := Mime.DetectTie.single_limit
 
 end Mime.C10
